@@ -299,6 +299,22 @@ func c1profile3() []*c1pkg {
 	add("multi-assign and swap", "a, b, c := 1, \"s\", 2.5\na, d := 4, true\nx, y := 1, 2\nx, y = y, x\nq := []int{1, 2}\nq[0], q[1] = q[1], q[0]\nfmt.Println(a, b, c, d, x, y, q[0], q[1])\n")
 	add("const and iota", "const a = 3\nconst (\n\tb = iota\n\tc\n\td = iota * 10\n\te\n)\nconst f, g = 1, \"s\"\nfmt.Println(a, b, c, d, e, f, g, a+c)\n")
 	add("conversions", "x := 300\nb := byte(x)\nf := float64(x) / 7\ni := int(f)\ns := string(rune(65 + i%3))\nbs := []byte(\"hé\")\nt := string(bs[1:])\nu := uint32(x) * 20000000\nfmt.Println(b, i, s, len(bs), len(t), u, int8(x), float64(b)/8)\n")
+	// sub-slices share the array and its capacity: appends through one show through the other until the capacity is used up
+	for _, e := range elems {
+		t := e.t
+		add("sub-slice append aliasing, []"+t, fmt.Sprintf("s := []%s{%s, %s, %s, %s}\nt := s[0:1]\nt = append(t, %s)\nfmt.Println(s[1] == %s, len(t), len(s))\nu := s[1:3]\nu = append(u, %s)\nu = append(u, %s)\nu[0] = %s\nfmt.Println(s[3] == %s, s[1] == %s, len(u), len(s))\nw := s[2:]\nw = append(w, %s)\nw[0] = %s\nfmt.Println(s[2] == %s, len(w))\nv := s[:0]\nv = append(v, %s, %s)\nfmt.Println(s[0] == %s, s[1] == %s, len(v))\n",
+			t, e.a, e.a, e.a, e.a, e.b, e.b, e.b, e.b, e.b, e.b, e.a, e.b, e.b, e.b, e.b, e.b, e.b, e.b))
+	}
+	add("copy between overlapping sub-slices", "s := []int{1, 2, 3, 4, 5}\nn := copy(s[1:], s[:3])\nfmt.Println(n, s)\nm := copy(s[:2], s[3:])\nfmt.Println(m, s)\nvar z []int\nfmt.Println(copy(z, s), copy(s, z), len(s[2:2]), len(s[5:]))\n")
+	// shifts: counts at and beyond the operand width, negative operands, every width
+	for _, t := range []string{"int32", "uint32", "int8", "uint8"} {
+		for _, v := range []string{"1", "3", "-8", "100", "127"} {
+			if strings.HasPrefix(t, "u") && strings.HasPrefix(v, "-") {
+				continue
+			}
+			add("shifts of "+t+"("+v+") by counts up to 64", fmt.Sprintf("var a %s = %s\nfor _, n := range []uint32{0, 1, 6, 7, 8, 30, 31, 32, 33, 40, 63, 64} {\n\tfmt.Println(n, a<<n, a>>n)\n}\nvar k uint8 = 200\nfmt.Println(a<<k, a>>k)\n", t, v))
+		}
+	}
 	return []*c1pkg{p}
 }
 
